@@ -3,6 +3,7 @@ package main
 import (
 	"fmt"
 	"go/token"
+	"go/types"
 	"strings"
 
 	"golang.org/x/tools/go/ssa"
@@ -11,10 +12,129 @@ import (
 func init() { register("C16", true, runC16) }
 
 func runC16(c *Check) {
-	c.Explanation = "Decides the barrier, slot, error-routing and tiling clauses of C16 for every completion order and every subset of failing sources: each goroutine started by the fetch code begins with a deferred wg.Done on the WaitGroup whose Add count equals the number of goroutines launched; wg.Wait dominates every read of what the goroutines write; each goroutine writes only its own slot (its &sources[i], or variables no other goroutine touches) (R1-R3); after the barrier results are collected by a forward index loop, a source's error only reaches PrintErr and never a return value, and 'no profile' is decided from counts (R4, R5); consecutive chunks sources[start:end] tile [0,len) exactly (same step for start and end, end clamped to len) (R6). Not decided: what is fetched and merged, HTTP/file behaviour, Merge errors."
+	c.Explanation = "Decides the barrier, slot, error-routing and tiling clauses of C16 for every completion order and every subset of failing sources: each goroutine started by the fetch code begins with a deferred wg.Done on the WaitGroup whose Add count equals the number of goroutines launched; wg.Wait dominates every read of what the goroutines write; each goroutine writes only its own slot (its &sources[i], or variables no other goroutine touches) (R1-R3); after the barrier results are collected by a forward index loop, a source's error only reaches PrintErr and never a return value, and 'no profile' is decided from counts (R4, R5); consecutive chunks sources[start:end] tile [0,len) exactly (same step for start and end, end clamped to len) (R6). Also: profiles handed to combineProfiles across chunks are nil-tested on the path (R7) and grabProfile validates every profile it returns without error (R8). Not decided: what is fetched and merged, HTTP/file behaviour, Merge errors."
 	c.goroutineRules("C16", "internal/driver", []string{"grabSourcesAndBases", "concurrentGrab"})
 	c.collectRules()
 	c.chunkTiling()
+	c.combineNonNil()
+	c.validatedPerSource()
+}
+
+// combineNonNil (R7): a profile handed to combineProfiles is known to be non-nil at the
+// call: every element of the list built for the call is either freshly produced there or
+// tested against nil on the path (x == nil left / x != nil taken).  Deciding "first chunk"
+// by anything other than the accumulator's own state (for instance by the chunk index)
+// passes a nil accumulator when the first chunk yielded nothing.
+func (c *Check) combineNonNil() {
+	p := c.P
+	f := c.anchorFn("C16-R7", "internal/driver", "chunkedGrab")
+	if f == nil {
+		return
+	}
+	n := 0
+	for _, b := range f.Blocks {
+		for _, ins := range b.Instrs {
+			call, ok := ins.(*ssa.Call)
+			if !ok || call.Call.StaticCallee() == nil || call.Call.StaticCallee().Name() != "combineProfiles" {
+				continue
+			}
+			for i, v := range variadicValues(call.Call.Args[0]) {
+				if v == nil {
+					continue
+				}
+				if _, isPtr := v.Type().Underlying().(*types.Pointer); !isPtr {
+					continue
+				}
+				n++
+				key := fmt.Sprintf("combine-non-nil:%d", i)
+				if nonNilAt(v, b) {
+					c.ok("C16-R7", key, p.relFile(call.Pos()), "profile #"+fmt.Sprint(i)+" passed to combineProfiles is non-nil", "a nil test of that value decides the path to the call")
+				} else {
+					c.bad("C16-R7", key, p.relFile(call.Pos()), "chunkedGrab passes "+describeValue(v)+" to combineProfiles without having tested it against nil on that path: when every source of the first chunk fails the accumulated profile is still nil, and merging it with a later chunk dereferences nil although a source was fetched")
+				}
+			}
+		}
+	}
+	if n < 2 {
+		c.undecided("C16-R7", "combine-non-nil", p.relFile(f.Pos()), fmt.Sprintf("expected two profiles in the combineProfiles call of chunkedGrab, found %d", n))
+	}
+}
+
+// nonNilAt: on every path to block b the pointer v was compared with nil and found non-nil.
+func nonNilAt(v ssa.Value, b *ssa.BasicBlock) bool {
+	for d, child := b.Idom(), b; d != nil; child, d = d, d.Idom() {
+		iff, ok := d.Instrs[len(d.Instrs)-1].(*ssa.If)
+		if !ok || len(child.Preds) != 1 {
+			continue
+		}
+		cmp, ok := iff.Cond.(*ssa.BinOp)
+		if !ok || (cmp.Op != token.EQL && cmp.Op != token.NEQ) {
+			continue
+		}
+		var other ssa.Value
+		if cmp.X == v {
+			other = cmp.Y
+		} else if cmp.Y == v {
+			other = cmp.X
+		} else {
+			continue
+		}
+		if k, ok := other.(*ssa.Const); !ok || !k.IsNil() {
+			continue
+		}
+		if (cmp.Op == token.EQL && d.Succs[1] == child) || (cmp.Op == token.NEQ && d.Succs[0] == child) {
+			return true
+		}
+	}
+	return false
+}
+
+// validatedPerSource (R8): a source counts as fetched only if its profile is valid,
+// whoever produced it (the built-in fetch parses and validates, a plug-in fetcher need
+// not).  In grabProfile every return reachable with all error tests negative is dominated
+// by a CheckValid call on the profile.
+func (c *Check) validatedPerSource() {
+	p := c.P
+	f := c.anchorFn("C16-R8", "internal/driver", "grabProfile")
+	if f == nil {
+		return
+	}
+	var cv *ssa.Call
+	for _, b := range f.Blocks {
+		for _, ins := range b.Instrs {
+			if call, ok := ins.(*ssa.Call); ok && call.Call.StaticCallee() != nil && call.Call.StaticCallee().Name() == "CheckValid" {
+				cv = call
+			}
+		}
+	}
+	if cv == nil {
+		c.bad("C16-R8", "valid-per-source", p.relFile(f.Pos()), "grabProfile no longer validates the profile it returns: an invalid profile from a plug-in fetcher is counted as fetched, gets no per-source error, is merged, and makes the whole command fail later")
+		return
+	}
+	reach := reachUnder(f, func(cond ssa.Value) int {
+		if cmp, ok := cond.(*ssa.BinOp); ok && (cmp.Op == token.NEQ || cmp.Op == token.EQL) {
+			isErr := func(v ssa.Value) bool { return typeShort(v.Type()) == "error" }
+			isNil := func(v ssa.Value) bool { k, ok := v.(*ssa.Const); return ok && k.IsNil() }
+			if (isErr(cmp.X) && isNil(cmp.Y)) || (isErr(cmp.Y) && isNil(cmp.X)) {
+				if cmp.Op == token.NEQ {
+					return -1
+				}
+				return 1
+			}
+		}
+		return 0
+	})
+	bad := ""
+	for _, b := range f.Blocks {
+		if _, ok := b.Instrs[len(b.Instrs)-1].(*ssa.Return); ok && reach[b] && !cv.Block().Dominates(b) {
+			bad = p.relFile(b.Instrs[len(b.Instrs)-1].Pos())
+		}
+	}
+	if bad == "" {
+		c.ok("C16-R8", "valid-per-source", p.relFile(cv.Pos()), "every profile grabProfile returns without error was validated", "CheckValid dominates every return reachable when all error tests are negative")
+	} else {
+		c.bad("C16-R8", "valid-per-source", bad, "grabProfile can return a profile without error before validating it")
+	}
 }
 
 // goroutineRules: barrier and slot discipline for the go statements of the listed functions.
